@@ -15,8 +15,9 @@ RULE = ("exhaustive family on the dyadic grid: tiers of <=3 disjoint intervals w
         "entries lie after it with shrinking")
 TRUSTED = ["oracle: direct Python statement of the property (harness/props/C07.py:oracle)"]
 ASSUMPTIONS = ["finite timestamps, entries at non-negative times; regions inside the tier span, and (since fix A28) regions "
-               "sticking out of it or outside it: with doShrink exactly the part of the region inside the span is cut out "
-               "(a region that meets the span in at most one time erases nothing), without doShrink the region is used as given",
+               "sticking out of it or outside it: what the region covers is removed / truncated with the region as given, "
+               "shrinking or not; with doShrink exactly the part of the region inside the span is cut out of the time line "
+               "(nothing moves if that part is empty or a single time)",
                "distinct boundary times of the generated tiers differ by more than 1e-9 relative (a fact about this "
                "family's inputs, used by the 1e-9 oracle comparison; NOT a hypothesis of the theorems any more: "
                "deleteEntry matches exactly first, so the theorems hold however close the entries are)",
@@ -65,19 +66,6 @@ def oracle(c, r):
         if r[0] == "err" and r[2]:
             return None
         return Failure(dict(sig, clause="degenerate-region-rejected"), f"region a>=b not rejected by a praatio error: {r}")
-    if c["shrink"]:
-        # only what lies inside the span can be cut out of it (fix A28)
-        a2, b2 = max(a, t["lo"]), min(b, t["hi"])
-        if a2 >= b2:
-            if r[0] == "err":
-                return Failure(dict(sig, clause="no-error", exc=r[1]), f"eraseRegion with a region outside the span raised {r[1]}")
-            s = r[1]
-            if s["es"] != [list(e) for e in t["es"]] or (s["lo"], s["hi"], s["name"], s["k"]) != (t["lo"], t["hi"], t["name"], t["k"]):
-                return Failure(dict(sig, clause="outside-span-unchanged"),
-                               f"a region outside the span [{t['lo']},{t['hi']}] changed the tier: {s}")
-            return None
-        a, b = a2, b2
-        c = dict(c, a=a, b=b)
     exp = expected_entries(c)
     if exp is None:
         if r[0] == "err" and r[1] == "CollisionError":
@@ -91,8 +79,17 @@ def oracle(c, r):
         return Failure(dict(sig, clause="well-formed"), f"result ill-formed: {probs[0]}")
     if s["name"] != t["name"] or s["k"] != t["k"]:
         return Failure(dict(sig, clause="name"), "name/type changed")
+    # what the region covers is removed / truncated with the region AS GIVEN, shrinking or not; the shift and the new
+    # end use the part of the region inside the span (fix A28); if that part is empty nothing moves
+    shrinks = c["shrink"]
+    if shrinks:
+        a2, b2 = max(a, t["lo"]), min(b, t["hi"])
+        if a2 < b2:
+            a, b = a2, b2
+        else:
+            shrinks = False
     d = b - a
-    if not c["shrink"]:
+    if not shrinks:
         if s["es"] != exp:
             return Failure(dict(sig, clause="entries"), f"entries {s['es']} expected {exp}")
         if (s["lo"], s["hi"]) != (t["lo"], t["hi"]):
@@ -179,6 +176,12 @@ def corpus():
         for sh in (True, False):
             yield {"op": "ierase", "tier": w, "a": a, "b": b, "mode": "truncate", "shrink": sh, "grid": True}
             yield {"op": "perase", "tier": pt, "a": a, "b": b, "mode": "truncate", "shrink": sh, "grid": True}
+    # A28, second commit (91f0238): a region that only touches an end of the span removes a point sitting on that end,
+    # shrinking or not (the first version of the fix kept it when shrinking)
+    q = {"k": "P", "name": "Q", "es": [[0.0, "s"], [3.0, "p"], [10.0, "x"]], "lo": 0.0, "hi": 10.0}
+    for (a, b) in [(10.0, 15.0), (-5.0, 0.0)]:
+        for sh in (True, False):
+            yield {"op": "perase", "tier": q, "a": a, "b": b, "mode": "truncate", "shrink": sh, "grid": True}
     g = {"lo": 0.0, "hi": 10.0, "tiers": [w, dict(pt, name="marks"), e, {"k": "P", "name": "none", "es": [], "lo": 0.0, "hi": 10.0}]}
     for (a, b) in [(6.0, 15.0), (-5.0, 2.0), (5.0, 30.0), (12.0, 15.0)]:
         yield {"op": "tg_erase", "tg": g, "a": a, "b": b, "shrink": True, "grid": True}
